@@ -732,7 +732,10 @@ pub fn eval_c16(input: &(State, Vec<DVec3>)) -> Eval {
         }
         d
     };
-    for i in 0..n {
+    // big states: ring points around the first two cells only (the big cell is cell 0 by construction); the node
+    // invariant above is evaluated for every cell
+    let ring_cells: Vec<usize> = if n > 16 { vec![0, 1.min(n - 1)] } else { (0..n).collect() };
+    for i in ring_cells {
         for (di, d) in dirs.iter().enumerate() {
             for (tag, f) in [("out", 1. + 1. / 1048576.), ("in", 1. - 1. / 1048576.), ("far", 1.25)] {
                 let mut p = st.gen_loc(i) + *d * (radii[i] * f);
